@@ -26,10 +26,25 @@ def run(unit, functions, repo, scratch, timeout=900):
             shutil.copytree(p, os.path.join(copy, name))
         elif os.path.exists(p):
             shutil.copy(p, os.path.join(copy, name))
-    # the harness becomes a module of the scratch copy (never of /repo)
+    # the harness becomes a module of the scratch copy (never of /repo); `//! host: src/x.rs` makes it a child
+    # module of that file so that it can reach the file's private items
     shutil.copy(src, os.path.join(copy, "src", "verif_bounded.rs"))
+    host = None
+    for line in open(src):
+        if line.startswith("//! host:"):
+            host = line.split(":", 1)[1].strip()
     with open(os.path.join(copy, "src", "lib.rs"), "a") as f:
-        f.write("\n#[doc(hidden)]\npub mod verif_bounded;\n")
+        f.write("\nextern crate self as slotted_egraphs;\n")
+        if host is None or host == "src/lib.rs":
+            f.write("#[doc(hidden)]\npub mod verif_bounded;\n")
+        else:
+            rel = os.path.relpath(os.path.join(copy, "src", "verif_bounded.rs"), os.path.dirname(os.path.join(copy, host)))
+            with open(os.path.join(copy, host), "a") as h:
+                h.write('\n#[path = "%s"]\npub mod verif_bounded;\n' % rel)
+            parts = host[len("src/"):-len(".rs")].split("/")
+            if parts[-1] == "mod":
+                parts = parts[:-1]
+            f.write("#[doc(hidden)]\npub use crate::%s::verif_bounded;\n" % "::".join(parts))
     # strip dev-dependencies and benches so that only the library is built
     ct = open(os.path.join(copy, "Cargo.toml")).read()
     import re
@@ -42,7 +57,11 @@ def run(unit, functions, repo, scratch, timeout=900):
         '[package]\nname = "verif-bounded-runner"\nversion = "0.0.0"\nedition = "2021"\n\n[dependencies]\nslotted-egraphs = { path = "../crate" }\n\n[workspace]\n')
     open(os.path.join(runner, "src", "main.rs"), "w").write(
         'fn main() {\n    let only: Vec<String> = std::env::args().skip(1).collect();\n    let f = slotted_egraphs::verif_bounded::run(&only);\n    for x in &f { println!("{}", x); }\n    println!("BOUNDED-DONE {}", f.len());\n}\n')
-    shutil.copy(os.path.join(repo, "Cargo.lock"), os.path.join(runner, "Cargo.lock"))
+    lock = os.path.join(repo, "Cargo.lock")
+    if not os.path.exists(lock):
+        lock = "/repo/Cargo.lock"
+    if os.path.exists(lock):
+        shutil.copy(lock, os.path.join(runner, "Cargo.lock"))
     env = dict(os.environ, CARGO_NET_OFFLINE="true", CARGO_TARGET_DIR=os.path.join(root, "target"), RUSTFLAGS="-Awarnings")
     cmd = ["cargo", "run", "--offline", "--quiet", "--"] + list(functions)
     try:
